@@ -2008,3 +2008,21 @@ TABLE["C14"] += [
     B("output-left-alone-when-newer-than-the-source", {"R1"},
       (PW, "        main_module = sources[0]\n", "        main_module = sources[0]\n        out_, src_ = Path(main_module_name), Path(main_module)\n        if out_.is_file() and src_.stat().st_mtime_ns < out_.stat().st_mtime_ns:\n            return\n")),
 ]
+_NS_APP = "            element = instantiate_namespace(element, typedef_targets)\n            instantiated_content.append(element)\n"
+TABLE["C08"] += [
+    B("namespaces-left-empty-are-dropped", {"N11"}, (TI + "namespace.py", _NS_APP, "            element = instantiate_namespace(element, typedef_targets)\n            if element.content:\n                instantiated_content.append(element)\n")),
+    B("typedefd-instantiations-ahead-of-the-nested-namespaces", {"N11", "N3"},
+      (TI + "namespace.py", "    instantiated_content.extend(typedef_content)\n", "    nested = [i for i, e in enumerate(instantiated_content) if isinstance(e, parser.Namespace)]\n    position = nested[0] if nested else len(instantiated_content)\n    instantiated_content[position:position] = typedef_content\n")),
+]
+TABLE["C09"] += [
+    B("typedefd-instantiations-ahead-of-the-nested-namespaces", {"W18"},
+      (TI + "namespace.py", "    instantiated_content.extend(typedef_content)\n", "    nested = [i for i, e in enumerate(instantiated_content) if isinstance(e, parser.Namespace)]\n    position = nested[0] if nested else len(instantiated_content)\n    instantiated_content[position:position] = typedef_content\n")),
+]
+TABLE["C13"] += [
+    B("instantiation-list-kind-decided-by-its-first-entry", {"P14"},
+      (IP + "template.py", "                for inst in instantiations:\n                    x = inst.typename if isinstance(inst,\n                                                    TemplatedType) else inst\n                    self.instantiations.append(x)\n",
+       "                if isinstance(instantiations[0], TemplatedType):\n                    self.instantiations = [inst.typename for inst in instantiations]\n                else:\n                    self.instantiations = list(instantiations)\n")),
+    N("instantiation-list-by-one-comprehension",
+      (IP + "template.py", "                for inst in instantiations:\n                    x = inst.typename if isinstance(inst,\n                                                    TemplatedType) else inst\n                    self.instantiations.append(x)\n",
+       "                self.instantiations = [inst.typename if isinstance(inst, TemplatedType) else inst for inst in instantiations]\n")),
+]
